@@ -12,7 +12,7 @@ for d in sorted(glob.glob('/verif/seeded/*/')):
     if only and not any(name.startswith(o) for o in only):
         continue
     m = json.load(open(d + 'meta.json'))
-    prop = m['property']
+    prop = m.get('property') or name[:3]
     r = subprocess.run(['git', '-C', '/repo', 'apply', d + 'patch.diff'])
     if r.returncode:
         print(name, 'PATCH DOES NOT APPLY'); bad.append(name); continue
